@@ -37,8 +37,8 @@ META = {
         "on both interpreters"
     ),
     "bounds": {
-        "quick": "N=5 nodes, nesting D=3, K=6 condition evaluations per path",
-        "thorough": "N=6 nodes, nesting D=3, K=8 condition evaluations per path",
+        "quick": "N=5 nodes, nesting D=3, K=6 condition evaluations per path; emitted C++ compiled and run for all flows of N<=3 x all 32 outcome strings of length 5",
+        "thorough": "N=6 nodes, nesting D=3, K=8 condition evaluations per path; emitted C++ for all flows of N<=4 x 32 outcome strings",
     },
     "assumptions": [
         "state-machine semantics = the C++ switch emitted by cpp/yielding.py: an If "
@@ -125,6 +125,11 @@ def shards(tier: str) -> List[Any]:
                 result.append((tier, n, k, kind))
     # Biggest first for balance
     result.sort(key=lambda s: -(s[1] * 10 + s[2]))
+    # the emitted C++ of cpp/yielding.py, compiled and run (binds the interpreter's
+    # model of `switch` fall-through and state invalidation to the real generator)
+    parts = CPP_PARTS[tier]
+    for part in range(parts):
+        result.append((tier, "cpp", part, parts))
     return result
 
 
@@ -152,35 +157,48 @@ class _Counter:
         return f"{prefix}{self.n}"
 
 
-def to_flow(seq: Sequence[Any], counter: Optional[_Counter] = None) -> List[Any]:
-    """Build real ``yielding.flow`` nodes with unique command/condition labels."""
+def to_flow(seq: Sequence[Any], counter: Optional[_Counter] = None, cpp: bool = False) -> List[Any]:
+    """
+    Build real ``yielding.flow`` nodes with unique command/condition labels; with
+    ``cpp`` the labels are wrapped into C++ statements / expressions of the driver.
+    """
     from aas_core_codegen.common import Stripped
     from aas_core_codegen.yielding import flow
 
     if counter is None:
         counter = _Counter()
+
+    def command(label: str) -> str:
+        return f'Log("{label}");' if cpp else label
+
+    def condition(label: str) -> str:
+        return f'Cond("{label}")' if cpp else label
+
+    def iteration_of(label: str) -> str:
+        return f'Log("{label}")' if cpp else label
+
     result = []  # type: List[Any]
     for node in seq:
         tag = node[0]
         if tag == "C":
-            result.append(flow.Command(Stripped(counter.next("c"))))
+            result.append(flow.Command(Stripped(command(counter.next("c")))))
         elif tag == "Y":
             result.append(flow.Yield())
         elif tag in ("T", "F"):
-            cond = counter.next("k")
-            body = to_flow(node[1], counter)
-            or_else = None if node[2] is None else to_flow(node[2], counter)
+            cond = condition(counter.next("k"))
+            body = to_flow(node[1], counter, cpp)
+            or_else = None if node[2] is None else to_flow(node[2], counter, cpp)
             cls = flow.IfTrue if tag == "T" else flow.IfFalse
             result.append(cls(cond, body, or_else))
         elif tag == "R":
-            init = counter.next("i") if node[1] else None
-            cond = counter.next("k")
-            iteration = counter.next("t")
-            body = to_flow(node[2], counter)
+            init = command(counter.next("i")) if node[1] else None
+            cond = condition(counter.next("k"))
+            iteration = command(counter.next("t"))
+            body = to_flow(node[2], counter, cpp)
             result.append(flow.For(cond, iteration, body, init=init))
         elif tag == "W":
-            cond = counter.next("k")
-            body = to_flow(node[1], counter)
+            cond = condition(counter.next("k"))
+            body = to_flow(node[1], counter, cpp)
             result.append(flow.While(cond, body))
         else:
             raise AssertionError(tag)
@@ -448,10 +466,139 @@ def _nontrivial(seq: Any) -> bool:
     return any(tag in text for tag in ("'Y'", "'T'", "'F'", "'R'", "'W'"))
 
 
+CPP_PARTS = {"quick": 4, "thorough": 16}
+CPP_SIZE = {"quick": 3, "thorough": 4}
+CPP_K = 5
+
+CPP_PRELUDE = """
+#include <cstdio>
+#include <csignal>
+#include <stdexcept>
+#include <string>
+#include <unistd.h>
+static int g_flow = -1;
+static void OnAlarm(int) {
+  // a state machine which spins without evaluating a condition never returns
+  char buffer[64]; int n = std::snprintf(buffer, sizeof(buffer), "\\nSPIN %d\\n", g_flow);
+  fflush(stdout); (void)!write(1, buffer, n); _exit(3);
+}
+namespace common {
+inline std::string Concat(const std::string& a, const std::string& b) { return a + b; }
+}
+struct OutOfOutcomes {};
+static std::string g_trace; static const char* g_outcomes; static size_t g_pos;
+static bool Cond(const char* name) {
+  if (g_outcomes[g_pos] == 0) throw OutOfOutcomes();
+  bool value = g_outcomes[g_pos++] == 'T';
+  g_trace += name; g_trace += value ? "=T " : "=F "; return value;
+}
+static void Log(const char* name) { g_trace += name; g_trace += ' '; }
+template <class M> static void Run(int flow, const char* outcomes) {
+  g_flow = flow; std::signal(SIGALRM, OnAlarm); alarm(5);
+  g_trace.clear(); g_outcomes = outcomes; g_pos = 0; M m; const char* end = "cap";
+  try { for (int step = 0; step < 400; ++step) { m.Execute(); } }
+  catch (const OutOfOutcomes&) { end = "more"; }
+  catch (const std::logic_error&) { end = "end"; }
+  std::printf("%s|%s\\n", g_trace.c_str(), end);
+}
+"""
+
+
+def explore_cpp(tier: str, part: int, parts: int, result: Result) -> None:
+    import itertools
+    import subprocess
+
+    from aas_core_codegen.common import Identifier
+    from aas_core_codegen.cpp import yielding as cpp_yielding
+    from verif import exttools
+    from verif.core import worker_tmp
+
+    gxx = exttools.gxx()
+    if gxx is None:
+        result.skipped_tools.append("g++")
+        return
+    depth = BOUNDS[tier]["depth"]
+    flows = []  # type: List[Any]
+    number = 0
+    for n in range(1, CPP_SIZE[tier] + 1):
+        for seq in gen_seqs(n, depth):
+            number += 1
+            if number % parts == part:
+                flows.append(seq)
+    outcomes = ["".join(bits) for bits in itertools.product("TF", repeat=CPP_K)]
+    source = [CPP_PRELUDE]
+    main = ["int main() {"]
+    for index, seq in enumerate(flows):
+        try:
+            body = cpp_yielding.generate_execute_body(flow=to_flow(seq, cpp=True), state_member=Identifier("state_"))
+        except Exception as exc:
+            result.add_violation("cpp-generator-crash:" + crash_signature(exc), short_exc(exc), {"flow": seq, "k": CPP_K, "cpp": True})
+            body = "throw std::logic_error(\"generator crashed\");"
+        source.append(f"struct M{index} {{ int state_ = 0; void Execute() {{\n{body}\n}} }};")
+        for outcome in outcomes:
+            main.append(f'  Run<M{index}>({index}, "{outcome}");')
+    main.append("  return 0;\n}")
+    base = worker_tmp() / f"c26-cpp-{part}"
+    base.mkdir(parents=True, exist_ok=True)
+    try:
+        (base / "flows.cpp").write_text("\n".join(source) + "\n" + "\n".join(main) + "\n", encoding="utf-8")
+        rc, _, stderr = exttools.run([gxx, "-std=c++17", "-O0", "-w", "-o", str(base / "flows"), str(base / "flows.cpp")], timeout=1800)
+        if rc != 0:
+            result.add_violation("cpp-does-not-compile", stderr[-300:], {"flow": flows[0] if flows else None, "k": CPP_K, "cpp": True})
+            return
+        rc, stdout, stderr = exttools.run([str(base / "flows")], timeout=1200)
+        lines = stdout.splitlines()
+        if rc == 3 and lines and lines[-1].startswith("SPIN "):
+            spinning = flows[int(lines[-1].split()[1])]
+            result.add_violation(
+                "cpp-state-machine-spins",
+                "the emitted C++ state machine loops without evaluating any condition",
+                {"flow": spinning, "k": CPP_K, "cpp": True},
+            )
+            return
+        if rc != 0 or len(lines) != len(flows) * len(outcomes):
+            result.extra.setdefault("harness_errors", []).append(f"cpp driver: rc={rc}, {len(lines)} lines, {stderr[-200:]}")
+            return
+        position = 0
+        for seq in flows:
+            reference_flow = to_flow(seq)
+            result.states += 1
+            result.evaluations += 1
+            if _nontrivial(seq):
+                result.nontrivial += 1
+            for outcome in outcomes:
+                env = _Env([c == "T" for c in outcome])
+                end = "end"
+                try:
+                    run_structured(reference_flow, env)
+                except _OutOfOutcomes:
+                    end = "more"
+                expected = "".join(f"{event} " for event in env.events if event != "yield") + "|" + end
+                got = lines[position]
+                position += 1
+                result.transitions += 1
+                if got != expected:
+                    result.add_violation(
+                        "cpp-trace-divergence",
+                        f"outcomes={outcome}: emitted C++ gives {got!r}, the structured flow {expected!r}",
+                        {"flow": seq, "k": CPP_K, "cpp": True, "outcomes": outcome},
+                    )
+                    break
+            else:
+                result.outcomes.add("cpp-agrees")
+    finally:
+        import shutil
+
+        shutil.rmtree(base, ignore_errors=True)
+
+
 def work(shard: Any) -> Result:
     tier = shard[0]
     k = BOUNDS[tier]["k"]
     result = Result()
+    if shard[1] == "cpp":
+        explore_cpp(tier, shard[2], shard[3], result)
+        return result
     for seq in flows_of_shard(shard):
         violations, executed, complete = check_flow(seq, k)
         result.evaluations += 1
@@ -475,4 +622,14 @@ def _tuplify(value: Any) -> Any:
 
 
 def replay(case: Any) -> List[Violation]:
+    if case.get("cpp"):
+        result = Result()
+        # one flow: reuse the exploration with a private generator of one element
+        original = gen_seqs
+        try:
+            globals()["gen_seqs"] = lambda n, d: [_tuplify(case["flow"])] if n == 1 else []
+            explore_cpp("quick", 0, 1, result)
+        finally:
+            globals()["gen_seqs"] = original
+        return result.violations
     return check_flow(_tuplify(case["flow"]), case["k"])[0]
